@@ -27,6 +27,6 @@ theorem InvC.pres_g1 {cfg : Cfg} {s s' : State} {l : Label} (hB : InvB s) (hI : 
   all_goals (try subst_vars)
   all_goals (try dsimp only)
   all_goals (grind [upd, Root.kind, TS.active, TS.live, TS.ended, TS.isStopping, failTS, cancelSubs,
-    cancelRoots, Pend.ts, scPastWait, scEarly])
+    cancelRoots, cancelRootsV, Pend.ts, scPastWait, scEarly])
 
 end Kopf.C20
